@@ -662,21 +662,17 @@ class HyperElasticState:
 
         The direction must already be normalized: fiber/sheet directions are
         normalized once when the material is built (see :class:`HolzapfelOgden`),
-        so there is no per-call ``T/||T||`` here — only the component split, with
-        the entries above ``dim`` zeroed.
+        so there is no per-call ``T/||T||`` here — only the component split.
         """
         _params._CheckIsVector(T)
         if not isinstance(T, FeArray):
             T = FeArray.asfearray(T, True)
         T = T.astype(float)
 
+        # every component is kept: C is padded with the identity above `dim`, so a unit
+        # direction with an out-of-plane part still gives I4(F=I) = 1 and a stress-free
+        # reference configuration
         Tx, Ty, Tz = T[..., 0], T[..., 1], T[..., 2]
-
-        dim = self._GetDims()[2]
-        if dim == 1:
-            Ty = Tz = 0
-        elif dim == 2:
-            Tz = 0
 
         return Tx, Ty, Tz
 
